@@ -173,6 +173,7 @@ var ctxs = []ctx{
 	{"deferpanic", "", `func() { defer func() { verif.Tr("outer"); r := recover(); if r != nil { verif.Tr("rec:" + r.(string)) }; CALL(3) }(); func() { defer func() { verif.Tr("d1"); CALL(1); verif.Tr("d1e") }(); defer func() { CALL(2); verif.Tr("d2e") }(); verif.Tr("body"); panic("p") }(); verif.Tr("notreached") }(); verif.Tr("after")`},
 	{"deferrecover", "", `x := func() (r Int) { defer func() { CALL(1); e := recover(); CALL(2); if e != nil { r = 7 }; CALL(3) }(); CALL(4); var m map[Int]Int; m[1] = 1; return 1 }(); verif.TrI("x", x); y := func() (r Int) { defer func() { recover() }(); defer func() { CALL(5); panic("second") }(); panic("first") }(); verif.TrI("y", y)`},
 	{"loopclosure", "", `var fs []func() Int; for i := 0; i < 3; i++ { j := Int(i); CALL(i); fs = append(fs, func() Int { j += 10; return j + CALL(1) }) }; CALL(2); for _, f := range fs { verif.TrI("f", f()) }; verif.TrI("f0", fs[0]())`},
+	{"forclausecapture", "", `var fs []func() Int; var ps []*Int; for i := Int(0); i < 3; i++ { fs = append(fs, func() Int { return i * 10 }); ps = append(ps, &i); CALL(int(i)) }; CALL(5); for k, f := range fs { verif.TrI("f", f()+*ps[k]) }; cnt := 0; for i, n := Int(0), CALL(4); i < n; i++ { dec := func() { n-- }; CALL(int(i)); dec(); cnt++ }; verif.TrI("cnt", Int(cnt)); for i := Int(0); i < 2; i++ { for j := Int(0); j < 2; j++ { fs = append(fs, func() Int { return i*10 + j }); CALL(int(j)) } }; verif.TrI("last", fs[len(fs)-1]()+fs[3]())`},
 	{"nestedlit", "", `x := Int(1); func() { y := x + CALL(1); func() { x += y + CALL(2); verif.TrI("in", x) }(); CALL(3); verif.TrI("mid", x+y) }(); verif.TrI("out", x)`},
 	{"recursion", "func recCTX(n int) Int { if n == 0 { return CALL(0) }; x := CALL(n); y := recCTX(n - 1); return x*100 + y + CALL(n) }", `verif.TrI("rec", recCTX(3))`},
 	{"gostmt", "", `done := make(chan Int); go func(v Int) { verif.TrI("g", v); done <- v + CALL(2) }(CALL(1)); verif.TrI("got", <-done)`},
